@@ -504,10 +504,13 @@ pub fn slice_events(input: &str, output: &str) -> Value {
     let clamp = |x: u128| -> i64 { if x > 2_000_000_000 { 2_000_000_000 } else { x as i64 } };
     let ci = |x: i128| -> i64 { x.clamp(-2_000_000_000, 2_000_000_000) as i64 };
     for line in &lines {
-        let cleaned = crate::utils::clean_input(line);
-        let toks: Vec<&str> = cleaned.split(' ').collect();
+        // the engine sees the line through its own clean_input + split(' '), as in the command loop; the tokens handed to
+        // the specification are split independently
+        let cleaned = catch_unwind(AssertUnwindSafe(|| crate::utils::clean_input(&format!("{}\n", line)))).unwrap_or_default();
+        let etoks: Vec<&str> = cleaned.split(' ').collect();
+        let toks: Vec<&str> = line.split_whitespace().collect();
         let r = catch_unwind(AssertUnwindSafe(|| {
-            let gt = crate::uci::verif_parse_go_command(&toks);
+            let gt = crate::uci::verif_parse_go_command(&etoks);
             let sw = gt.calculate_time_slice(PieceColor::White);
             let sb = gt.calculate_time_slice(PieceColor::Black);
             // the same go with the OTHER side's clock / increment changed
